@@ -28,15 +28,16 @@ M = [
  ("C08", "erange-response-keeps-word-size-bit", "src/register-protocol.c", "    return send_resp_32(p, f, RP_RESP_ERANGE, address, MSEM_8BIT);", "    return send_resp_32(p, f, RP_RESP_ERANGE, address, MSEM_AUTO);"),
  ("C06", "no-word-size-check", "src/register-protocol.c", "    if (memtype_valid(p, mf->frame) == false) {", "    if (memtype_valid(p, mf->frame) == false && mf->frame->header.blocksize > 0u) {"),
  ("C06", "eaccess-reports-request-address", "src/register-protocol.c", "        return regp_resp_eaccess(p, mf->frame, ba.address);", "        return regp_resp_eaccess(p, mf->frame, addr);"),
+ ("C06", "register-range-verdict-mapped-to-einvalid", "include/ufw/register-protocol.h", "    case REG_ACCESS_RANGE:         rc.status = RP_RESP_ERANGE;    break;", "    case REG_ACCESS_RANGE:         rc.status = RP_RESP_EINVALID;  break;"),
  ("C07", "header-crc-ignored-for-16bit-frames", "src/register-protocol.c", "    return (crc == frame->header.hdcrc) ? (int)offset : -EILSEQ;", "    return (crc == frame->header.hdcrc || (frame->header.options & 1u) != 0u)\n        ? (int)offset : -EILSEQ;"),
  ("C07", "payload-crc-skipped-for-single-word", "src/register-protocol.c", "    if (regp_has_plcrc(f) == false) {\n        return 0;\n    }", "    if (regp_has_plcrc(f) == false || f->header.blocksize == 1u) {\n        return 0;\n    }"),
  ("C09", "channel-error-leaks-block-on-tcp", "src/register-protocol.c", "        if (rc < 0) {\n            /* Nothing is handed to the caller, so nobody else can free. */\n            regp_free(p, (RPFrame*)cs.buffer.data);\n            return rc;\n       }", "        if (rc < 0) {\n            return rc;\n       }"),
  ("C09", "read-limit-ignores-header-again", "src/register-protocol.c", "        const size_t room = p->alloc->blocksize\n            - (size_t)((unsigned char*)buf - (unsigned char*)mf->frame);", "        const size_t room = p->alloc->blocksize - sizeof(RPFrame);"),
  ("C17", "sink-eagain-not-retried", "src/endpoints/core.c", "        if (put == -EINTR || put == -EAGAIN) {", "        if (put == -EINTR) {"),
  ("C17", "atmost-aux-clamp-off-by-one", "src/endpoints/core.c", "        buffer.used = buffer.offset + n;", "        buffer.used = buffer.offset + n + 1u;"),
- ("C18", "consume-at-most-one-short", "src/byte-buffer.c", "    const size_t n = size > rest ? rest : size;", "    const size_t n = size >= rest ? rest - 1u : size;"),
+ ("C18", "clear-zeroes-only-the-filled-part", "src/byte-buffer.c", "    b->offset = b->used = 0u;\n    memset(b->data, 0, b->size);", "    memset(b->data, 0, b->used);\n    b->offset = b->used = 0u;"),
  ("C18", "add-accepts-one-octet-too-many", "src/byte-buffer.c", "    if (b->size < (b->used + size)) {", "    if (b->size + 1u < (b->used + size)) {"),
- ("C19", "advance-tail-never-empties", "include/ufw/ring-buffer.h", "        if (c->tail == c->head)                 \\\n            c->tail = c->datasize;              \\", "        if (c->tail == c->head && c->datasize == 1u) \\\n            c->tail = c->datasize;              \\"),
+ ("C19", "old-to-new-iterator-wraps-one-late", "src/ring-buffer-iter.c", "        iter->index = (iter->index + 1) % iter->size;", "        iter->index = (iter->index + 1) % (iter->size + 1);"),
  ("C19", "iterator-new-to-old-starts-at-head", "include/ufw/ring-buffer-iter.h", "                (c->head == 0) ? c->datasize - 1 : c->head - 1; \\", "                (c->head == 0) ? c->datasize - 1 : c->head;     \\"),
 ]
 def main():
